@@ -272,6 +272,14 @@ def exh_family(r=None, limit=None):
                     out.append(p + "<%s%s>" % (one, bd2))
                     out.append(p + "<a%s%s>" % (one, bd2))
                     out.append(p + "{%s,b}%s" % (one, bd2 and ""))
+    # two multi-branch alternations in one concatenation, with a boundary between them or at a facing edge
+    alts = ["{a,b}", "{a,a/b}", "{a/,a/b/}", "{c,d}", "{c,c/d}", "{/c,/c/d}", "{a,b/c}", "{*,a/b}"]
+    for x in alts:
+        for y in alts:
+            for mid in ["/", "", "/x/"]:
+                for p in ["", "a/", "/"]:
+                    out.append(p + x + mid + y)
+            out.append("<%s/%s:2>" % (x, y))
     out = list(dict.fromkeys(out))
     if limit is not None and r is not None and len(out) > limit:
         out = r.sample(out, limit)
